@@ -190,8 +190,14 @@ def check_all_patterns(ctx) -> None:
     ctx.require_anchor(len(pat_stores) >= 1, "pattern stores in _translate_constraints")
     # the returned _AllOf: which lists / dicts it is made of
     rets = [n for n in walk_function_body(f.node) if isinstance(n, ast.Return) and n.value is not None and not (isinstance(n.value, ast.Constant) and n.value.value is None)]
-    ctx.require_anchor(len(rets) == 1 and isinstance(rets[0].value, ast.Call) and dotted_of(rets[0].value.func) == "_AllOf", "single `return _AllOf(...)`")
-    ret_names = {n.id for n in ast.walk(rets[0].value) if isinstance(n, ast.Name)}
+    ret_value = rets[0].value if len(rets) == 1 else None
+    if isinstance(ret_value, ast.Name):
+        # `x = _AllOf(...); return x`
+        defs = [n for n in walk_function_body(f.node) if isinstance(n, ast.Assign) and len(n.targets) == 1 and isinstance(n.targets[0], ast.Name) and n.targets[0].id == ret_value.id]
+        if len(defs) == 1:
+            ret_value = defs[0].value
+    ctx.require_anchor(isinstance(ret_value, ast.Call) and dotted_of(ret_value.func) == "_AllOf", "single `return _AllOf(...)`")
+    ret_names = {n.id for n in ast.walk(ret_value) if isinstance(n, ast.Name)}
 
     def reaches_return(dict_name: str, st: ast.stmt) -> bool:
         if dict_name in ret_names:
